@@ -810,12 +810,16 @@ class Resolver:
             return self.cache[key]
         if key in self._busy or l in self._busy_locals:
             # loop-carried variable: refer to it by identity, its definitions are available via var_defs()
-            self.cyclic.add(l)
+            self.cyclic = set(self.cyclic) | {l}
             return ('var', l, body.local_name(l))
         self._busy.add(key)
         self._busy_locals.add(l)
         try:
             rd = self.reaching(l, bb, idx)
+            if l in self.cyclic and len(rd) > 1:
+                r = ('var', l, body.local_name(l))
+                self.cache[key] = r
+                return r
             if not rd:
                 if 1 <= l <= body.arg_count:
                     r = ('param', body.local_name(l) or '_%d' % l)
@@ -1002,6 +1006,14 @@ def norm_bool(d, val):
         d = d[2]
         val = not val
     return ('true' if val else 'false', d)
+
+
+def phi_table(body, R, local):
+    """For a local assigned in several arms: list of (value expr, guard literals of the assigning block, bb)."""
+    out = []
+    for (dbb, didx) in body.defs().get(local, []):
+        out.append((R.def_expr(dbb, didx), literals(body, R, dbb), dbb))
+    return out
 
 
 def walk(e):
